@@ -156,6 +156,10 @@ def judge(ctx, scripts, real, options_mode=False):
                               "nin": nin, "nout": nout, "tn": t})
                 index.append((sid, t))
                 continue
+            if scripts[sid]["cfg"]["shape"] == "sync":
+                cases.append({"ver": 22, "L": tr["trace"], "blocked": "R" in scripts[sid]["turns"][t - 1]["outv"]})
+                index.append((sid, t))
+                continue
             cases.append({"ver": scripts[sid]["cfg"]["ver"], "L": tr["trace"], "nin": nin, "nout": nout, "inOn": in_on, "outOn": out_on, "tn": t})
             index.append((sid, t))
     jd = ctx.sub("judge")
